@@ -420,14 +420,6 @@ func init() {
 		}
 		return Tuple{mkFP(64, 0), e.numError("ParseFloat", x)}
 	})
-	// time.Parse: arbitrary outcome (the three time-based header formats are outside the claims)
-	reg("time.Parse", func(e *Engine, fn *ssa.Function, a []Value, s ssa.Instruction) Value {
-		tt := e.namedType("time", "Time")
-		if e.decide(e.freshBool("timeparse_ok")) {
-			return Tuple{zero(tt), Iface{}}
-		}
-		return Tuple{zero(tt), e.newErrorString(mkStr("parsing time: invalid"))}
-	})
 	regVerif("Matches", func(e *Engine, fn *ssa.Function, a []Value, s ssa.Instruction) Value {
 		x := T(a[0])
 		pat := constStr(e, a[1], "pattern", s)
